@@ -39,12 +39,21 @@ MC_CONSTS = "CONSTANTS Keys = {1,2,3}\nVals = {1,2}\n"
 MC_CONSTS_SMALL = "CONSTANTS Keys = {1,2}\nVals = {1,2}\n"
 D_QUICK, D_THOROUGH = 4, 5
 SIM_QUICK = ((6, 60), (7, 60))            # (depth, random walks)
-SIM_THOROUGH = ((6, 3000), (7, 3000))
-TV_SHARDS = 6                          # concurrent TLC processes for trace validation (one JVM does ~5000 traces/s)
+SIM_THOROUGH = ((6, 2000), (7, 2000))
 CASE_TIMEOUT = 20.0                    # seconds per case (alarm inside the worker)
 KINDS = ("pickled", "dbm")
 HANDLE_OPS = ("set", "get", "del", "in", "len", "iter", "getd", "clear", "sync", "close")
 CTOR_OPS = ("create", "fromdict", "open")
+
+
+def tv_shards():
+    """Concurrent TLC processes for trace validation (one JVM does ~5000 traces/s): as many as there are idle cores,
+    between 4 and 12 (on a busy machine more JVMs are slower, not faster)."""
+    try:
+        idle = NCPU - os.getloadavg()[0]
+    except OSError:
+        idle = 6
+    return max(4, min(12, int(idle)))
 
 
 class CaseTimeout(BaseException):
@@ -557,7 +566,7 @@ def process(cases, tally, want_samples=()):
             raise MachineryError("case %s/%d has no result" % (c["kind"], c["cid"]))
         traces.append({"tid": "%s%d" % (c["kind"][0], c["cid"]), "ev": ev})
     t1 = time.time()
-    verdicts, agg = validate_traces("Trace_PDict", traces, consts=CONSTS, shards=TV_SHARDS if len(traces) > 800 else None,
+    verdicts, agg = validate_traces("Trace_PDict", traces, consts=CONSTS, shards=tv_shards() if len(traces) > 800 else None,
                                     timeout=3000)
     tally.t_val += time.time() - t1
     tally.tv_states += agg["distinct"]
@@ -639,7 +648,7 @@ def main(argv_tier=None, replay_path=None):
             gen_runs["simulate D=%d %s" % (depth, kind)] = {"walks": num, "histories": len(hs)}
             other += mk(kind, hs, "tlc-simulate")
     rnd = random.Random(seed() + 20)
-    nrand = 2000 if quick else 40000
+    nrand = 2000 if quick else 20000
     for kind in KINDS:
         other += mk(kind, [random_history(rnd, kind, 50) for _ in range(nrand)], "random")
         other += mk(kind, [random_history(rnd, kind, 50) for _ in range(nrand // 2)], "random", obs="sparse")
